@@ -227,7 +227,9 @@ func runC13(ctx *core.Ctx) {
 			path := rm.Call.Args[0]
 			facts := sg.FactsAtInstr(rm)
 			var stat *ssa.Call
-			for _, s := range sg.Calls("os.Stat", "os.Lstat") {
+			// os.Stat, not Lstat: the refresh on use (os.Chtimes) follows symbolic links, so the age must be
+			// judged on the same file
+			for _, s := range sg.Calls("os.Stat") {
 				if s.Call.Args[0] == path {
 					stat = s
 				}
@@ -384,6 +386,9 @@ func runC13(ctx *core.Ctx) {
 		}
 		ctx.Check(nameOK && content && after == nil && errRet, "T6", "cache.Trim#record", w.Pos(), "trim.txt written via lockedfile.Write (name ok=%v) with now.Unix() in decimal (%v), after the scan (%v), error returned (%v)", nameOK, content, after == nil, errRet)
 	}
+	// ---- T9: a re-stored entry is young again (= C05.G11: the index file is rewritten on every successful
+	// putIndexEntry, which is what moves its mtime)
+	indexNilMeansWritten(ctx, "T9")
 	// ---- T7
 	used := ctx.Need("T7", "cache", "(*Cache).used")
 	get := ctx.Need("T7", "cache", "(*Cache).get")
